@@ -210,9 +210,12 @@ func (s *scriptedRand) Read(p []byte) (int, error) {
 		putBE(p, uint64(idx))
 		s.log = append(s.log, fmt.Sprintf("word=%d", idx))
 	case "ext":
-		c := s.x.Choose(3, "ext")
-		putBE(p, uint64(c))
-		s.log = append(s.log, fmt.Sprintf("ext=%d", c))
+		// default: a non-empty extension (".txt"), so that duplicate detection
+		// has to look through the extension; alternatives: none, ".pdf"
+		opts := []uint64{1, 0, 2}
+		c := s.x.Choose(len(opts), "ext")
+		putBE(p, opts[c])
+		s.log = append(s.log, fmt.Sprintf("ext=%d", opts[c]))
 	case "content":
 		c := s.x.Choose(2, "content")
 		if c == 0 {
